@@ -371,4 +371,26 @@ CHECKS = {
              "thorough": {"checks": 700, "shards": 16, "timeout": 3400}},
         ],
     },
+    "C16": {
+        "level": "exploration",
+        "level_text": ("Configurations of the documented thruserv flags are generated (each limit and time-out at default / small / 0, "
+                       "TURN issuing off or on with 10 URL spellings x 4 endpoints x 5 secrets x 3 TTLs, peer ids with URL-significant "
+                       "characters); every single flag at small and at 0 is covered deterministically, combinations by rapid. For each "
+                       "configuration a fresh real server is started and the real client functions run against it: "
+                       "clienthttp.CreateSession, app.buildWebSocketURL + wsclient.Dial + ReadLoop for both roles, and ice.parseTurnServer "
+                       "on every minted URL. Oracle: the session is created and is the one the server logged; both roles connect and the "
+                       "peer ids arrive unchanged (peer_list / peer_joined); the receiver is admitted; the parsed TURN user is "
+                       "<expiry>:<peer id> with expiry in (now, now+ttl], the parsed password equals base64(HMAC-SHA1(secret, user)) "
+                       "recomputed by the harness, endpoint and TLS/TCP/servername/insecure options are as configured."),
+        "level_note": "No TURN server is available offline: only mint -> parse agreement is checked, as the statement says. Server start ~30 ms per configuration.",
+        "technique": "property-based configuration testing (rapid + single-flag covering set) of the real server binary with the real client functions; round-trip oracle for URLs and TURN credentials",
+        "rule": ("case = flag assignment x TURN setup x peer ids; non-trivial = >= 1 flag at 0, or TURN on with a non-canonical spelling, or a "
+                 "peer id that needs escaping; distinct by configuration."),
+        "assumptions": ["'small' values are the smallest ones whose documented meaning still allows one session with one host and one receiver"],
+        "units": [
+            {"name": "srv", "pkg": "./internal/verifsrv", "run": "^TestVerifC16", "binaries": ["thruserv"],
+             "quick": {"checks": 80, "shards": 8, "timeout": 900},
+             "thorough": {"checks": 400, "shards": 16, "timeout": 3400}},
+        ],
+    },
 }
